@@ -60,6 +60,10 @@ def classify(path, a, b):
             tag = 'keyword-string'
         elif isinstance(a, list) and a[0] == 'str' and '\n' in a[1]:
             tag = 'multiline'
+    elif sk.endswith('.default[]'):
+        # the leaves of a default: [kind, value]; a string spelled like a bare keyword comes back as that keyword's value
+        if (isinstance(a, str) and a.lower() in KW and a != 'NULL' and (b is True or b is False or b == 'NULL')) or (a == 'str' and b == 'bool'):
+            sk, tag = sk[:-2], 'keyword-string'
     elif sk.endswith('.note') or sk.endswith('.text'):
         if isinstance(a, str) and '\n' in a:
             tag = 'multiline'
@@ -210,7 +214,7 @@ def run_shard(spec, tier, seed, budget_s):
                 size = 'large'          # a few big documents in every tier (many tables, references, indexes)
             ml = rng.random() < 0.15
             props = rng.random() < 0.3
-            doc = gen.random_doc(rng, size, 'plain', props=props, ml_small_notes=ml)
+            doc = gen.random_doc(rng, size, 'plain', props=props, ml_small_notes=ml, kwstrings=True)
             suite = 'random.mlnote' if ml else 'random'
             if not ml and rng.random() < 0.2 and gen.same_bare_names(doc, rng):
                 suite = 'random.samebare'
